@@ -7,6 +7,9 @@ import (
 
 	"github.com/gin-gonic/gin"
 
+	"github.com/free5gc/chf/cdr/asn"
+	"github.com/free5gc/chf/cdr/cdrConvert"
+	chf_context "github.com/free5gc/chf/internal/context"
 	"github.com/free5gc/chf/zzref"
 	vx "github.com/free5gc/chf/zzvx"
 	"github.com/free5gc/openapi/models"
@@ -160,4 +163,73 @@ func ZZ_C03_History() {
 		vx.Assert("update answered 200", vx.HTTPStatus(c) == 200)
 		zzCheckCdrFile("after update in a longer history")
 	}
+}
+
+// C03 at the split boundary: a session's record is filled up to R octets and
+// a small report of s octets follows, for every total R + s in a window around
+// 65535 (the split decision adds exactly these two numbers). The harness
+// measures the encodings with the real encoder (lengths are concrete) and
+// picks the length of one variable-length member so that the total lands on
+// each value of the window; after the small report the file must be
+// well-formed. Quick: totals 65530..65541; thorough: 65500..65560.
+//
+//gosx:property=C03 tier=quick unwind=40 timeout=30000 shards=4 p.lo=65530 p.n=12 p.lo.thorough=65500 p.n.thorough=61 maxseconds.thorough=3000
+func ZZ_C03_SplitBoundary() {
+	p := zzSetup()
+	zzAccount(zzSupi, 1, 1000000, 10)
+	ref, _ := zzCreate(p, "A", zzSupi)
+	ue, found := chf_context.GetSelf().ChfUeFindBySupi(zzSupi)
+	if !found {
+		vx.Fail("subscriber context exists")
+		return
+	}
+	size := func() int {
+		rec := ue.Cdr[ref]
+		b, err := asn.BerMarshalWithParams(&rec, "explicit,choice")
+		if err != nil {
+			vx.Fail("record encodes")
+		}
+		return len(b)
+	}
+	offline := func(l string, n int) models.ChfConvergedChargingMultipleUnitUsage {
+		u, _ := zzUsageInd(l, 1, 1, 1)
+		zzSmallUsage(&u)
+		u.UsedUnitContainer[0].QuotaManagementIndicator = models.QuotaManagementIndicator_OFFLINE_CHARGING
+		u.UPFID = zzLongString(n)
+		return u
+	}
+	send := func(u models.ChfConvergedChargingMultipleUnitUsage) {
+		c := &gin.Context{}
+		p.HandleChargingdataUpdate(c, models.ChfConvergedChargingChargingDataRequest{SubscriberIdentifier: zzSupi,
+			MultipleUnitUsage: []models.ChfConvergedChargingMultipleUnitUsage{u}}, ref)
+		vx.Assert("update answered 200", vx.HTTPStatus(c) == 200)
+	}
+	send(offline("u1", 30000))
+	r1 := size()
+	send(offline("u2", 1000))
+	r2 := size()
+	perEntry := r2 - r1 - 1000 // octets an entry adds beyond its long member
+	small := offline("u4", 3)
+	list := cdrConvert.MultiUnitUsageToCdr([]models.ChfConvergedChargingMultipleUnitUsage{small})
+	sb, err := asn.BerMarshalWithParams(&list, "explicit,choice")
+	if err != nil {
+		vx.Fail("usage list encodes")
+		return
+	}
+	lo, n := vx.Param("lo", 65530), vx.Param("n", 12)
+	nsh, sh := vx.Param("nshards", 1), vx.Param("shard", 0)
+	k := vx.Choice("total", (n+nsh-1)/nsh)*nsh + sh
+	if k >= n {
+		return
+	}
+	total := lo + k
+	l3 := total - len(sb) - r2 - perEntry
+	if l3 < 256 || len(ue.Records) != 1 {
+		vx.Fail("calibration: the filling report keeps a long member and no split happened yet")
+		return
+	}
+	send(offline("u3", l3))
+	vx.Assume(len(ue.Records) == 1 && size()+len(sb) == total) // the record is filled as planned
+	send(small)
+	zzCheckCdrFile("after a small report to an almost full record")
 }
